@@ -573,8 +573,20 @@ func init() {
 			b, _ := args[0].([]value)
 			return tuple{len(b), iface{}}
 		},
+		// sync.Pool: a LIFO free list per pool (what one P sees in the runtime: an object that was Put is handed out
+		// again by the next Get); Put releases and Get acquires on the pool (the runtime's pool operations synchronise)
 		"(*sync.Pool).Get": func(fr *frame, args []value) value {
+			i := fr.i
 			p := args[0].(*value)
+			if i.pools == nil {
+				i.pools = map[*value][]value{}
+			}
+			i.hbAcquire(i.curTask, p)
+			if l := i.pools[p]; len(l) > 0 {
+				x := l[len(l)-1]
+				i.pools[p] = l[:len(l)-1]
+				return x
+			}
 			st := (*p).(structure)
 			// field "New" is the last field of sync.Pool
 			newFn := st[len(st)-1]
@@ -584,9 +596,21 @@ func init() {
 					return iface{}
 				}
 			}
-			return fr.i.call(fr, 0, newFn, nil)
+			return i.call(fr, 0, newFn, nil)
 		},
-		"(*sync.Pool).Put": nop,
+		"(*sync.Pool).Put": func(fr *frame, args []value) value {
+			i := fr.i
+			p := args[0].(*value)
+			if x, ok := args[1].(iface); ok && x.t == nil {
+				return nil
+			}
+			if i.pools == nil {
+				i.pools = map[*value][]value{}
+			}
+			i.pools[p] = append(i.pools[p], args[1])
+			i.hbRelease(i.curTask, p)
+			return nil
+		},
 
 		"runtime.KeepAlive":    nop,
 		"runtime.SetFinalizer": nop,
